@@ -76,24 +76,25 @@ type Violation struct {
 }
 
 type Run struct {
-	T       *testing.T
-	ID      string
-	Seed    uint64
-	Tier    string
-	OutDir  string
-	Rng     *Rng
-	ops     *bufio.Writer
-	obs     *bufio.Writer
-	fops    *os.File
-	fobs    *os.File
-	nOps    int
-	hits    map[string]int
-	classes map[string]bool
-	nontriv map[string]bool
-	viol    []Violation
-	samples []string
-	extra   map[string]any
-	traces  int
+	T        *testing.T
+	ID       string
+	Seed     uint64
+	Tier     string
+	OutDir   string
+	Rng      *Rng
+	ops      *bufio.Writer
+	obs      *bufio.Writer
+	fops     *os.File
+	fobs     *os.File
+	nOps     int
+	hits     map[string]int
+	classes  map[string]bool
+	nontriv  map[string]bool
+	viol     []Violation
+	samples  []string
+	extra    map[string]any
+	traces   int
+	curTrace []string
 	// AutoClass: stateless protocols — each distinct op line is a case; non-trivial iff not an error
 	AutoClass bool
 }
@@ -126,12 +127,22 @@ func NewRun(t *testing.T, id string) *Run {
 
 func (r *Run) Thorough() bool { return r.Tier == "thorough" }
 
-// N picks the quick or the thorough budget.
+// N picks the quick or the thorough budget.  VERIF_SCALE (a float, used by the meta-harnesses C12 /
+// C18 when they run another package's generator as a sub-process) scales budgets of 20 and more.
 func (r *Run) N(quick, thorough int) int {
+	n := quick
 	if r.Thorough() {
-		return thorough
+		n = thorough
 	}
-	return quick
+	if sc := os.Getenv("VERIF_SCALE"); sc != "" && n >= 20 {
+		if f, err := strconv.ParseFloat(sc, 64); err == nil && f > 0 {
+			n = int(float64(n) * f)
+			if n < 2 {
+				n = 2
+			}
+		}
+	}
+	return n
 }
 
 // Emit writes one op line and the implementation's observation for it.
@@ -144,6 +155,11 @@ func (r *Run) Emit(op, obs string) {
 	r.obs.WriteString(obs)
 	r.obs.WriteByte('\n')
 	r.nOps++
+	r.curTrace = append(r.curTrace, op)
+	if digestOut != nil && lastFix != nil && lastFix.App != nil {
+		// C12: digest of every KV store after every op of every package harness
+		fmt.Fprintf(digestOut, "op=%d %s\n", r.nOps, lastFix.StoreDigest())
+	}
 	if r.AutoClass {
 		r.Class(op, obs != "err" && obs != "bad-op")
 	}
@@ -161,9 +177,18 @@ func (r *Run) Class(key string, nontrivial bool) {
 		r.nontriv[key] = true
 	}
 }
-func (r *Run) Trace()                { r.traces++ }
-func (r *Run) Set(k string, v any)   { r.extra[k] = v }
-func (r *Run) Violations() int       { return len(r.viol) }
+
+// Trace marks the end of one trace.  With VERIF_C18 set, the application the trace ran on (the most
+// recent fixture) additionally goes through the generic genesis export / import comparison.
+func (r *Run) Trace() {
+	r.traces++
+	if os.Getenv("VERIF_C18") != "" && lastFix != nil {
+		c18Generic(r, lastFix, r.curTrace)
+	}
+	r.curTrace = nil
+}
+func (r *Run) Set(k string, v any) { r.extra[k] = v }
+func (r *Run) Violations() int     { return len(r.viol) }
 func (r *Run) Violate(sig, detail string, replay ...string) {
 	for _, v := range r.viol {
 		if v.Signature == sig && len(v.Replay) <= len(replay) {
